@@ -26,6 +26,8 @@ pub struct LogStatistics {
     pub live_keys: u64,
     pub dead_keys: u64,
     pub dead_bytes: u64,
+    /// How many of the dead keys are tombstones.
+    pub tombstones: u64,
 }
 
 impl LogStatistics {
@@ -38,6 +40,12 @@ impl LogStatistics {
     pub fn add_dead(&mut self, nbytes: u64) {
         self.dead_keys += 1;
         self.dead_bytes += nbytes;
+    }
+
+    /// Add a tombstone to the statistics where `nbytes` is the size of the entry on disk.
+    pub fn add_tombstone(&mut self, nbytes: u64) {
+        self.add_dead(nbytes);
+        self.tombstones += 1;
     }
 
     /// Turn a live key into a dead key where `nbytes` is the size of the entry on disk.
